@@ -64,18 +64,21 @@ def known_match(known, prop, f, hist, ev):
     return None
 
 
-def run_batch(out, label, dictname, histories, spec="Trace_File", nshards=None, known=None, driver="drive"):
+def run_batch(out, label, dictname, histories, spec="Trace_File", nshards=None, known=None, driver="drive", keep=None,
+              extra_script=None):
     """Drive + validate one batch; classify failures for out.prop."""
     if not histories:
         return
-    res = core.drive_and_validate(f"{out.prop}_{label}", dictname, histories, spec=spec, nshards=nshards, driver=driver)
+    res = core.drive_and_validate(f"{out.prop}_{label}", dictname, histories, spec=spec, nshards=nshards, driver=driver,
+                                  keep=keep, extra_script=extra_script)
     out.histories += len(histories)
     out.events += res["events"]
     for h in histories:
         out.distinct.add(core.script_hash(h))
     if len(out.samples) < 3:
         h = histories[len(histories) // 2]
-        out.samples.append({"batch": label, "dict": dictname, "ver": h.get("ver"), "ops": h["ops"][:12]})
+        out.samples.append({"batch": label, "dict": dictname, "ver": h.get("ver"),
+                            "ops": h["ops"][:12] if "ops" in h else {k: v for k, v in h.items() if k != "image"}})
     out.parts.append({"batch": label, "histories": len(histories), "events": res["events"],
                       "wall_s": round(res["wall"], 1)})
     known = known or core.load_known()
